@@ -2,10 +2,10 @@
    GENERATED RWMutex model; owners are guard ids (gid), unboundedly many.  Definitions only. *)
 From Coq Require Import NArith ZArith List Bool Arith.
 Require Import LF.Base.RWBase LF.Gen.RWMutexGen LF.Gen.ConstsGen.
+Require Export LF.Base.LockBase.
 Import ListNotations.
 Local Open Scope nat_scope.
 
-Inductive lk := LPending | LShared | LReserved | LWrite | LCkpt | LRecover | LRead0 | LRead1 | LRead2 | LRead3 | LRead4 | LDMS.
 Definition lk_eqb (a b : lk) : bool :=
   match a, b with
   | LPending, LPending | LShared, LShared | LReserved, LReserved | LWrite, LWrite | LCkpt, LCkpt | LRecover, LRecover
@@ -94,6 +94,15 @@ Definition write_script (wal : bool) : list act :=
   [AR LPending; AR LShared; AU LPending] ++
   (if wal then [AR LDMS; AX LWrite; AX LCkpt; AX LRecover; AX LRead0; AX LRead1; AX LRead2; AX LRead3; AX LRead4]
    else [AX LReserved; AX LPending; AX LShared]).
+(* the generated steps of TryAcquireWriteLock as a script *)
+Fixpoint acts_of (l : list gstep) : list act :=
+  match l with
+  | [] => []
+  | GR x :: r => AR x :: acts_of r
+  | GX x :: r => AX x :: acts_of r
+  | GU x :: r => AU x :: acts_of r
+  | _ :: r => acts_of r
+  end.
 Fixpoint run_script (t : table) (g : gid) (s : list act) : option (bool * table) :=
   match s with
   | [] => Some (true, t)
@@ -119,8 +128,11 @@ Definition wal_write_allowed (t : table) : bool := gstate_eqb (state (t LWrite))
 Inductive lop :=
 | OTryLocks (g : nat) (ls : list nat) | OTryRLocks (g : nat) (ls : list nat) | OUnlockL (g : nat) (ls : list nat)
 | OCanLockL (g : nat) (ls : list nat) | OCanRLockL (g : nat) (ls : list nat)
-| OAcquireWrite (g : nat) (wal : bool) | OReleaseAll (g : nat) | OWalWriteAllowed.
+| OAcquireWrite (g : nat) (wal : bool) | OReleaseAll (g : nat) | OWalWriteAllowed
+| OUnlockDatabaseL (g : nat) | OUnlockSHML (g : nat).   (* DB.UnlockDatabase / DB.UnlockSHM: flush of a database / shm handle *)
 Definition lk_of (n : nat) : lk := nth n all_locks LPending.
+Definition db_locks : list lk := [LPending; LReserved; LShared].
+Definition shm_locks : list lk := [LWrite; LCkpt; LRecover; LRead0; LRead1; LRead2; LRead3; LRead4; LDMS].
 Definition gcode (s : gstate) : nat := match s with Unlocked => 0 | Shared => 1 | Exclusive => 2 end.
 Definition lstep (t : table) (o : lop) : option (nat * table) :=
   match o with
@@ -132,6 +144,8 @@ Definition lstep (t : table) (o : lop) : option (nat * table) :=
   | OAcquireWrite g wal => match try_acquire_write t g wal with Some (b, t') => Some (if b then 1 else 0, t') | None => None end
   | OReleaseAll g => match unlock_all t g all_locks with Some t' => Some (2, t') | None => None end
   | OWalWriteAllowed => Some (if wal_write_allowed t then 1 else 0, t)
+  | OUnlockDatabaseL g => match unlock_all t g db_locks with Some t' => Some (2, t') | None => None end
+  | OUnlockSHML g => match unlock_all t g shm_locks with Some t' => Some (2, t') | None => None end
   end.
 Fixpoint lrun (t : table) (ops : list lop) : list nat :=
   match ops with
